@@ -185,6 +185,7 @@ def write_evidence(prop, tier, seed, ded, rt, violations, known_hit, wall, undec
                                     "seconds": o.get("seconds")} for o in obs[:: max(1, len(obs) // 8)]][:10],
             "bounded_in": ded.get("bounded_in", []),
             "slowest_tasks": ded.get("slowest_tasks", []),
+            "numpy_model_conformance": ded.get("numpy_model_conformance", {}),
             "slowest_obligations": [{"id": o["id"], "seconds": o.get("seconds"), "backend": o.get("backend")}
                                     for o in sorted(obs, key=lambda o: -(o.get("seconds") or 0))[:8]],
         })
